@@ -1004,7 +1004,8 @@ func c06closed(p *Program, r *Report, rule string) {
 	}
 	// mu.lock re-checks closed after acquiring
 	if fn := p.Func("mu.lock"); fn != nil {
-		p.forAllPaths(r, "C06.recheck", fn, "closed re-checked after acquisition", Opts{},
+		// isClosed() is the non-blocking poll of closed: looked through, so both spellings of the re-check read the same
+		p.forAllPaths(r, "C06.recheck", fn, "closed re-checked after acquisition", Opts{Inline: p.inlineSet("Conn.isClosed")},
 			"mu.lock returns nil only after polling Conn.closed once more after the acquisition and finding it open; when closed it releases the lock and returns a non-nil error", func(pa *Path) (bool, string) {
 				if pa.End != "return" {
 					return true, ""
